@@ -1,5 +1,7 @@
 (* Props/C12.v -- property theorems for C12 (Textgrid as an ordered, uniquely named map). *)
-From PraatIO Require Import Textgrid.TgModel Textgrid.TgProofs Tier.CtorProofs Tier.CropProofs.
+From PraatIO Require Import Textgrid.TgModel Textgrid.TgProofs Tier.CtorProofs Tier.CropProofs Tier.TierModel
+  Textgrid.TgSpliceProofs Textgrid.TgValidProofs.
+Open Scope Z_scope.
 
 (* whenever a mutator succeeds, the tier list is what the plain ordered-list model says *)
 Theorem C12_refines_list_model g o :
@@ -80,3 +82,22 @@ Theorem C12_merge_tiers_shape g sel keep g' :
     /\ (pt = None <-> filter_map (fun t => match t with TP x => Some x | TI _ => None end) ts = []).
 Proof. exact (tg_merge_shape g sel keep g'). Qed.
 Print Assumptions C12_merge_tiers_shape.
+
+(* eraseRegion and insertSpace return VALID textgrids.  tg_valid mn mx g: the textgrid spans [mn, mx], names are unique,
+   every tier is well-formed and has exactly that span.  Erasing a region inside the span gives a textgrid valid for
+   [mn, mx] (without shrinking) or [mn, mx - (b - a)] (with) ... *)
+Theorem C12_erase_region_valid mn mx g a b s g' : tg_valid mn mx g -> mn <= a -> a < b -> b <= mx ->
+  tg_erase g a b s = Ok g' -> tg_valid mn (if s then mx - (b - a) else mx) g'.
+Proof. exact (tg_erase_valid mn mx g a b s g'). Qed.
+Print Assumptions C12_erase_region_valid.
+
+(* ... inserting d >= 0 at or after the start gives one valid for [mn, mx + d], in every collision mode that returns ... *)
+Theorem C12_insert_space_valid mn mx g s d m g' : tg_valid mn mx g -> mn <= mx -> 0 <= d -> mn <= s ->
+  tg_space g s d m = Ok g' -> tg_valid mn (mx + d) g'.
+Proof. exact (tg_space_valid mn mx g s d m g'). Qed.
+Print Assumptions C12_insert_space_valid.
+
+(* ... and on such a textgrid validate() is True *)
+Theorem C12_valid_validates mn mx g : tg_valid mn mx g -> tg_validate g = true.
+Proof. exact (tg_valid_validates mn mx g). Qed.
+Print Assumptions C12_valid_validates.
